@@ -50,11 +50,6 @@ theorem rst_cw (s : AFState α) (i : AFIn α) (hr : s.cq = 0) :
     (i.tw = true → s'.cw1 = 0 ∧ s'.cw2 = s.cw1) ∧ (i.tw = false → s'.cw1 = s.cw1 ∧ s'.cw2 = s.cw2) := by
   cases htr : i.tr <;> cases htw : i.tw <;> simp [afStepR, htr, htw, hr, gray_zero, mix_zero]
 
-/-- A schedule in which the reset is high throughout. -/
-def runRst (s : AFState α) : List (AFIn α) → AFState α
-  | [] => s
-  | i :: is => runRst (afStepR k b z s i true) is
-
 /-- First part of a reset: after one edge of each clock all resettable registers are zero. -/
 theorem rst_zero (xs : List (AFIn α)) : ∀ s : AFState α,
     (1 ≤ writeTicks xs ∨ WZero k z s) → (1 ≤ readTicks xs ∨ RZero s) →
